@@ -242,7 +242,9 @@ def _vf_store(c: Any, k: Any) -> None:
 def _vf_cmp(v: Any) -> Any:
 	"""operand of a comparison: same-kind scalars / strings only"""
 	if type(v) not in (int, float, bool, str):
-		raise OutOfSubset(f'comparison on {type(v).__name__}')
+		import enum
+		if not isinstance(v, enum.Enum):
+			raise OutOfSubset(f'comparison on {type(v).__name__}')
 	return v
 
 
@@ -346,6 +348,10 @@ class _Instr(ast.NodeTransformer):
 		if all(isinstance(o, (ast.Eq, ast.NotEq, ast.Lt, ast.LtE, ast.Gt, ast.GtE)) for o in n.ops):
 			n.left = self._call('_vf_cmp', n.left)
 			n.comparators = [self._call('_vf_cmp', c) for c in n.comparators]
+		elif any(isinstance(o, (ast.Is, ast.IsNot)) for o in n.ops):
+			# identity is value equality only on the bool singletons (ints: CPython caches small values only)
+			n.left = self._call('_vf_b', n.left)
+			n.comparators = [self._call('_vf_b', c) for c in n.comparators]
 		return n
 
 	def visit_IfExp(self, n: ast.IfExp) -> Any:
